@@ -1,6 +1,7 @@
 package main
 
 import (
+	"go/token"
 	"go/types"
 	"strings"
 
@@ -48,6 +49,41 @@ func pkgOf(fn *ssa.Function) *ssa.Package {
 }
 
 // staticCallees: functions called statically (or created as closures) by fn.
+// frozenFuncVar: v is the value of a package-level function variable of the module that is assigned once, by the
+// package initialiser, a named function (a seam for tests: `var listenUDP = net.ListenUDP`) and is never written at
+// run time (G1 reports such a write): calling it is calling that function.
+func frozenFuncVar(v ssa.Value) *ssa.Function {
+	ld, ok := v.(*ssa.UnOp)
+	if !ok || ld.Op != token.MUL || lintProgram == nil {
+		return nil
+	}
+	g, ok := ld.X.(*ssa.Global)
+	if !ok || g.Pkg == nil || !inModule(g.Pkg.Func("init")) {
+		return nil
+	}
+	if _, isFn := g.Type().Underlying().(*types.Pointer).Elem().Underlying().(*types.Signature); !isFn {
+		return nil
+	}
+	if !lintProgram.initFrozen(g) {
+		return nil
+	}
+	var fn *ssa.Function
+	n := 0
+	for _, sv := range storedInto(g.Pkg.Func("init"), g) {
+		n++
+		switch x := sv.(type) {
+		case *ssa.Function:
+			fn = x
+		case *ssa.ChangeType:
+			fn, _ = x.X.(*ssa.Function)
+		}
+	}
+	if n != 1 {
+		return nil
+	}
+	return fn
+}
+
 func staticCallees(fn *ssa.Function) []*ssa.Function {
 	var out []*ssa.Function
 	for _, b := range fn.Blocks {
@@ -59,6 +95,8 @@ func staticCallees(fn *ssa.Function) []*ssa.Function {
 				}
 			case ssa.CallInstruction:
 				if f := x.Common().StaticCallee(); f != nil {
+					out = append(out, f)
+				} else if f := frozenFuncVar(x.Common().Value); f != nil {
 					out = append(out, f)
 				}
 				for _, a := range x.Common().Args {
@@ -493,6 +531,79 @@ func simplePredicate(f *ssa.Function) bool {
 		simplePredMemo[f] = 1
 	} else {
 		simplePredMemo[f] = 2
+	}
+	return ok
+}
+
+// purePredicate: like simplePredicate, but the comparisons may also be over what documented pure functions of the
+// standard library say about the parameters (address.Addr().Is4() && address.Port() != 0; a == MustParseAddrPort("..")).
+// Walks that keep richer boolean helpers opaque still see through these: their body is the condition.
+var purePredMemo = map[*ssa.Function]int{}
+
+func purePredicate(f *ssa.Function) bool {
+	if f == nil || f.Blocks == nil || len(f.FreeVars) != 0 {
+		return false
+	}
+	switch purePredMemo[f] {
+	case 1:
+		return true
+	case 2, 3:
+		return false
+	}
+	purePredMemo[f] = 3
+	ok := f.Signature.Results().Len() == 1 && isBoolType(f.Signature.Results().At(0).Type()) && len(f.Blocks) <= 24
+	if ok {
+		for _, b := range f.Blocks {
+			for _, s := range b.Succs {
+				if s.Dominates(b) {
+					ok = false // a loop
+				}
+			}
+		}
+	}
+	if ok {
+	scan:
+		for _, b := range f.Blocks {
+			for _, in := range b.Instrs {
+				switch x := in.(type) {
+				case *ssa.BinOp, *ssa.If, *ssa.Jump, *ssa.Return, *ssa.Phi, *ssa.Convert, *ssa.ChangeType, *ssa.DebugRef, *ssa.Field, *ssa.Extract:
+				case *ssa.UnOp:
+					if x.Op.String() == "*" || x.Op.String() == "<-" {
+						ok = false
+						break scan
+					}
+				case *ssa.Call:
+					if x.Call.IsInvoke() {
+						ok = false
+						break scan
+					}
+					if _, isB := x.Call.Value.(*ssa.Builtin); isB {
+						continue
+					}
+					g := x.Call.StaticCallee()
+					switch {
+					case g == nil:
+						ok = false
+					case inModule(g):
+						ok = simplePredicate(g) || purePredicate(g)
+					default:
+						name := calleeName(g)
+						ok = isPureName(name) && !strings.HasPrefix(name, "time.") && !strings.HasPrefix(name, "fmt.") && !strings.HasPrefix(name, "(*")
+					}
+					if !ok {
+						break scan
+					}
+				default:
+					ok = false
+					break scan
+				}
+			}
+		}
+	}
+	if ok {
+		purePredMemo[f] = 1
+	} else {
+		purePredMemo[f] = 2
 	}
 	return ok
 }
